@@ -139,9 +139,11 @@ def checkWith (G : Grammar) (T : Tables) (K : Known) : Bool :=
        | none => false)) &&
   T.goto.all (fun e => (K.get e.2.2).isPrefixOf (e.2.1 :: K.get e.1)) &&
   -- table keys mention symbols of the grammar only (not needed for soundness; a table with a
-  -- foreign look-ahead or goto symbol cannot have been built from this grammar)
+  -- foreign look-ahead or goto symbol cannot have been built from this grammar).  A goto symbol is a
+  -- nonterminal or at least occurs in a right hand side (ppci keeps the name of a nonterminal whose
+  -- productions were all removed)
   T.action.all (fun e => e.2.1 == eof || G.isTerm e.2.1) &&
-  T.goto.all (fun e => G.isNonterm e.2.1)
+  T.goto.all (fun e => !G.isTerm e.2.1 && (G.isNonterm e.2.1 || G.prods.any (fun p => p.rhs.contains e.2.1)))
 
 def commonPrefix : List Nat → List Nat → List Nat
   | a :: as, b :: bs => if a == b then a :: commonPrefix as bs else []
